@@ -456,7 +456,7 @@ impl Property for C06 {
     }
 
     fn budget(tier: Tier) -> u64 {
-        tier.pick(60_000, 3_000_000)
+        tier.pick(400_000, 10_000_000)
     }
 
     fn rule() -> &'static str {
